@@ -411,6 +411,119 @@ def decorator(u):
             dict(name='fn_decorated_after', params=[('first', 'Z'), ('kind', 'Z'), ('ex_neg', 'B'), ('ex_inv', 'B'), ('ex_unx', 'B')], result='S', call=run_twice)]
 
 
+def send_request(u):
+    """C05 / C06 / C09 / C15: the real Client.send_request on a symbolic clock - symbolic timeouts (request_timeout, p2, p2*), symbolic
+    start time and symbolic arrival instants of the frames of a schedule of fixed shape (kinds of frames chosen per function)"""
+    import types
+    import symtrans as st
+    import udsoncan.client as uc
+    from udsoncan import Request, services
+    from udsoncan.exceptions import (NegativeResponseException, InvalidResponseException, UnexpectedResponseException, TimeoutException)
+    from udsoncan.connections import BaseConnection
+    uc.float = lambda x: 0.0 if isinstance(x, st.SymInt) else float(x)        # float() is used on a timeout for the text of a message only
+    FRAMES = {'P': b'\x7e\x00', 'W': b'\x7f\x3e\x78', 'N': b'\x7f\x3e\x22', 'I': b'\x7f', 'U': b'\x51\x01'}
+
+    class Clock:
+        pass
+
+    def make(shape, overall, spr=None, cb=False, percall=False, server=False):
+        def f(*args):
+            args = list(args)
+            T = args.pop(0) if overall else None
+            Tp = args.pop(0) if percall else -1
+            S2, S2S = (args.pop(0), args.pop(0)) if server else (None, None)
+            P2, P2S, now = args[0], args[1], args[2]
+            arrivals = args[3:]
+            clk = Clock()
+            clk.now, clk.waits, clk.events = now, [], 0
+            sched = [(a, FRAMES[k]) for a, k in zip(arrivals, shape)]
+
+            class Conn(BaseConnection):
+                def open(self): return self
+                def close(self): pass
+                def is_open(self): return True
+
+                def empty_rxqueue(self):
+                    pass           # the schedules considered hold no frame that arrived before the call (hypothesis of the theorems)
+
+                def specific_send(self, payload):
+                    clk.sent = payload
+
+                def specific_wait_frame(self, timeout=2):
+                    clk.waits.append((timeout, clk.now))
+                    if sched:
+                        a, fr = sched[0]
+                        if a <= clk.now + timeout:
+                            sched.pop(0)
+                            if a > clk.now:
+                                clk.now = a
+                            return fr
+                    clk.now = clk.now + timeout
+                    raise TimeoutException('silence')
+            saved = uc.time
+            uc.time = types.SimpleNamespace(monotonic=lambda: clk.now)
+            try:
+                c = uc.Client(Conn(), config={})
+                c.config['request_timeout'], c.config['p2_timeout'], c.config['p2_star_timeout'] = T, P2, P2S
+                if cb:
+                    def called():
+                        clk.events += 1
+                    c.config['nrc78_callback'] = called
+                if server:
+                    c.session_timing.p2_server_max, c.session_timing.p2_star_server_max = S2, S2S
+                req = Request(services.TesterPresent, subfunction=0)
+                try:
+                    if spr is None:
+                        r = c.send_request(req, timeout=Tp) if percall else c.send_request(req)
+                    else:
+                        with c.suppress_positive_response(wait_nrc=spr):
+                            r = c.send_request(req)
+                    out = [0, 0 if r is None else 1]
+                except TimeoutException as e:
+                    m = str(e)
+                    out = [4, 2 if 'P2* timeout' in m else (1 if 'P2 timeout' in m else (3 if 'Global request timeout' in m else 0))]
+                except NegativeResponseException as e:
+                    out = [5, e.response.code]
+                except InvalidResponseException:
+                    out = [6, 0]
+                except UnexpectedResponseException:
+                    out = [7, 0]
+            finally:
+                uc.time = saved
+            res = out + [clk.events, len(clk.waits)]
+            for w, t in clk.waits:
+                res += [w, t]
+            return res + [clk.now]
+        return f
+    L = []
+    base = [('P2', 'Z'), ('P2S', 'Z'), ('now', 'Z')]
+
+    def arr(shape):
+        return [('a%d' % (i + 1), 'Z') for i in range(len(shape))]
+    for shape in ('', 'P', 'W', 'N', 'I', 'U', 'WP', 'WN', 'WW'):
+        for overall in (True, False):
+            params = ([('T', 'Z')] if overall else []) + base + arr(shape)
+            L.append(dict(name='fn_send_request_%s%s' % (shape or 'silence', '' if overall else '_no_overall'), params=params, result='S',
+                          call=make(shape, overall)))
+    for shape in ('W', 'WP', 'WW'):       # a pending-response callback is configured
+        L.append(dict(name='fn_send_request_cb_%s' % shape, params=[('T', 'Z')] + base + arr(shape), result='S', call=make(shape, True, cb=True)))
+    for shape in ('', 'P', 'N', 'W', 'WP', 'WN'):      # inside `with client.suppress_positive_response(wait_nrc=True)`
+        L.append(dict(name='fn_send_request_spr_wait_%s' % (shape or 'silence'), params=[('T', 'Z')] + base + arr(shape), result='S',
+                      call=make(shape, True, spr=True)))
+    for shape in ('', 'P'):                             # inside `with client.suppress_positive_response(wait_nrc=False)`
+        L.append(dict(name='fn_send_request_spr_%s' % (shape or 'silence'), params=[('T', 'Z')] + base + arr(shape), result='S',
+                      call=make(shape, True, spr=False)))
+    for shape in ('', 'P', 'WP', 'W'):                  # send_request(request, timeout=Tp)
+        L.append(dict(name='fn_send_request_percall_%s' % (shape or 'silence'), params=[('T', 'Z'), ('Tp', 'Z')] + base + arr(shape), result='S',
+                      call=make(shape, True, percall=True)))
+    for shape in ('', 'P', 'WP', 'W'):                  # after a session change that supplied server timings
+        L.append(dict(name='fn_send_request_server_%s' % (shape or 'silence'), params=[('T', 'Z'), ('S2', 'Z'), ('S2S', 'Z')] + base + arr(shape), result='S',
+                      call=make(shape, True, server=True)))
+        L.append(dict(name='fn_send_request_server_no_overall_%s' % (shape or 'silence'), params=[('S2', 'Z'), ('S2S', 'Z')] + base + arr(shape), result='S',
+                      call=make(shape, False, server=True)))
+    return L
+
+
 def pick(names):
     return lambda u: [sp for sp in helpers(u) if sp['name'] in names]
 
@@ -425,6 +538,7 @@ def files(u):
             ('Fn_Codecs.v', 'udsoncan/common/CommunicationType.py, DataFormatIdentifier.py, AddressAndLengthFormatIdentifier.py, Baudrate.py',
              pick(['fn_alfid_byte', 'fn_commtype_byte', 'fn_commtype_from_byte', 'fn_dfi_byte', 'fn_dfi_from_byte', 'fn_baud', 'fn_baud_bytes', 'fn_baud_effective'])),
             ('Fn_Filesize.v', 'udsoncan/common/Filesize.py', pick(['fn_filesize_width'])),
+            ('Fn_SendRequest.v', 'udsoncan/client.py (send_request, on a symbolic clock)', send_request),
             ('Fn_Decorator.v', 'udsoncan/client.py (standard_error_management)', decorator),
             ('Fn_Edition.v', 'udsoncan/client.py (__init__, set_config, set_configs, refresh_config, validate_config, clear_dtc, communication_control)', edition),
             ('Fn_SimpleReq.v', 'udsoncan/client.py (the methods up to the call of send_request), udsoncan/services/*.py, Request.py',
